@@ -333,3 +333,29 @@ Proof.
         -- left. rewrite E in H1. inversion H1; subst. reflexivity.
         -- right. exists g. split; [exact Hg|split; assumption].
 Qed.
+
+(* ---- _scan_page_links: the links of a page are relative to the page that was served ---- *)
+Lemma scan_base_is_served asked r : scan_base asked r = resp_url r.
+Proof. reflexivity. Qed.
+
+Theorem scan_links_relative_to_served_page (V : Type) (pvf : string -> option V) (pvr : string -> option version) (sys : interp)
+        asked r c b l :
+  In (c, (b, l)) (scan_page V pvf pvr sys asked r) -> b = resp_url r /\ In (c, l) (offered V pvf pvr sys (resp_events r)).
+Proof.
+  unfold scan_page. intro H. apply in_map_iff in H. destruct H as [[c' l'] [Heq Hin]].
+  cbn [fst snd] in Heq. inversion Heq; subst. split; [apply scan_base_is_served|exact Hin].
+Qed.
+
+Theorem scan_offers_every_link (V : Type) (pvf : string -> option V) (pvr : string -> option version) (sys : interp)
+        asked r c l :
+  In (c, l) (offered V pvf pvr sys (resp_events r)) -> In (c, (resp_url r, l)) (scan_page V pvf pvr sys asked r).
+Proof.
+  intro H. unfold scan_page. apply in_map_iff. exists (c, l). split; [|exact H].
+  cbn [fst snd]. rewrite scan_base_is_served. reflexivity.
+Qed.
+
+(* a redirected page whose link must not be attributed to the address that was asked for *)
+Example scan_redirect_example :
+  scan_base "https://idx/simple/p/" (mkResp "https://mirror/pypi/p/" []) = "https://mirror/pypi/p/".
+Proof. reflexivity. Qed.
+
